@@ -104,6 +104,95 @@ theorem maxKey_none_refines (ix : Idx) (h : Inv ix) :
     (∀ e, maxKey ix none = .error e → e = .valueError) :=
   Proofs.FsIndex.maxKey_none_refines ix h
 
+/-- `record_iternext(next)` (the storage's record iteration, which relies on smallest-key-not-below):
+    whatever `next` is — present, absent, with an absent prefix — the record returned is that of the
+    smallest key not below `next`, and the key handed back for the following call is the smallest key
+    above it (`None` exactly when there is none), so the documented loop visits every key from `next`
+    on exactly once, in order; `ValueError` exactly when no key is `≥ next`. -/
+theorem recordIterNext_refines (ix : Idx) (h : Inv ix) (k : Nat) (hk : k < 2 ^ 64) :
+    (∀ oid nx, recordIterNext ix (some k) = .ok (oid, nx) →
+        IsLeastGE ix k oid ∧
+        (∀ n, nx = some n ↔ IsLeastGE ix (oid + 1) n) ∧
+        (nx = none ↔ ∀ m, get ix m ≠ none → m ≤ oid)) ∧
+    ((∀ m, get ix m ≠ none → m < k) → recordIterNext ix (some k) = .error .valueError) := by
+  refine ⟨?_, ?_⟩
+  · intro oid nx hr
+    unfold recordIterNext at hr
+    obtain ⟨hok, herr, hall⟩ := minKey_refines ix h k hk
+    cases hm : minKey ix (some k) with
+    | error e => rw [hm] at hr; cases hr
+    | ok o =>
+      rw [hm] at hr
+      simp only at hr
+      by_cases hlt : o + 1 < 2 ^ 64
+      · rw [if_pos hlt] at hr
+        obtain ⟨hok2, herr2, hall2⟩ := minKey_refines ix h (o + 1) hlt
+        cases hm2 : minKey ix (some (o + 1)) with
+        | ok n =>
+          rw [hm2] at hr
+          simp only [Except.ok.injEq, Prod.mk.injEq] at hr
+          obtain ⟨rfl, rfl⟩ := hr
+          have hn := (hok2 n).1 hm2
+          refine ⟨(hok o).1 hm, ?_, ?_⟩
+          · intro n'
+            constructor
+            · intro he; cases he; exact hn
+            · intro hn'
+              have h1 := hn.2.2 n' hn'.1 hn'.2.1
+              have h2 := hn'.2.2 n hn.1 hn.2.1
+              have : n = n' := Nat.le_antisymm h1 h2
+              rw [this]
+          · constructor
+            · intro he; cases he
+            · intro hall'
+              have := hall' n hn.1
+              have := hn.2.1
+              omega
+        | error e =>
+          have he := hall2 e hm2
+          subst he
+          rw [hm2] at hr
+          simp only [Except.ok.injEq, Prod.mk.injEq] at hr
+          obtain ⟨rfl, rfl⟩ := hr
+          have hnone := herr2.1 hm2
+          refine ⟨(hok o).1 hm, ?_, ?_⟩
+          · intro n'
+            constructor
+            · intro he; cases he
+            · intro hn'
+              have := hnone n' hn'.1
+              have := hn'.2.1
+              omega
+          · constructor
+            · intro _ m hm'
+              have := hnone m hm'
+              omega
+            · intro _; rfl
+      · rw [if_neg hlt] at hr
+        simp only [Except.ok.injEq, Prod.mk.injEq] at hr
+        obtain ⟨rfl, rfl⟩ := hr
+        refine ⟨(hok o).1 hm, ?_, ?_⟩
+        · intro n'
+          constructor
+          · intro he; cases he
+          · intro hn'
+            have hb := Proofs.FsIndex.get_lt ix h n' hn'.1
+            have := hn'.2.1
+            omega
+        · constructor
+          · intro _ m hm'
+            have := Proofs.FsIndex.get_lt ix h m hm'
+            omega
+          · intro _; rfl
+  · intro hnone
+    obtain ⟨_, herr, _⟩ := minKey_refines ix h k hk
+    unfold recordIterNext
+    rw [herr.2 hnone]
+
+example : recordIterNext exIx0 (some 0x10005) = .ok (0x20001, some 0x30007) := by decide
+example : recordIterNext exIx0 (some 0x20002) = .ok (0x30007, none) := by decide
+example : recordIterNext exIx0 (some 0x30008) = .error .valueError := by decide
+
 /-- save then load yields an equal index and position (bucket strings are decoded exactly). -/
 theorem save_load_id (ix : Idx) (h : Inv ix) (pos : Nat) : load (save ix pos) = (pos, ix) :=
   Proofs.FsIndex.save_load_id ix h pos
